@@ -41,6 +41,17 @@ func Render(p *Program, pr *Printer) map[string]string {
 type SetOptions []jet.Option
 
 // RunImpl executes p on jet, built from /repo's current working tree.
+// cappedBuffer refuses to grow beyond 2 MB: a loop that never ends while printing must end as a reported
+// failure, not as an out-of-memory kill of the whole check.
+type cappedBuffer struct{ bytes.Buffer }
+
+func (b *cappedBuffer) Write(p []byte) (int, error) {
+	if b.Len()+len(p) > 2<<20 {
+		panic(fmt.Errorf("harness: more than 2 MB of output (runaway loop?)"))
+	}
+	return b.Buffer.Write(p)
+}
+
 func RunImpl(p *Program, src map[string]string, extra ...jet.Option) (res ImplResult) {
 	var log []string
 	in := Inputs{}
@@ -72,7 +83,7 @@ func RunImpl(p *Program, src map[string]string, extra ...jet.Option) (res ImplRe
 			vars.Set(k, v)
 		}
 	}
-	var buf bytes.Buffer
+	var buf cappedBuffer
 	func() {
 		defer func() {
 			if x := recover(); x != nil {
